@@ -27,10 +27,10 @@ theorem current_beq (s : State) (t : TaskId) : (current s == some t) = decide (s
   | idle => simp
   | inTask u => by_cases h : u = t <;> simp [h]
 
-/-- `Gen.taskThrow` (the Python source) = guard + effect of the Kernel's `taskThrow` event, in every state. -/
+/-- `Gen.Intr.taskThrow` (the Python source) = guard + effect of the Kernel's `taskThrow` event, in every state. -/
 theorem taskThrow_eq (s : State) (t : TaskId) (cd : Bool) (hpy : (s.tasks t).py = true) :
-    Kernel.taskThrow s t cd = ghostThrow s t (Gen.taskThrow s t (.intr s.nexc cd)) := by
-  unfold Kernel.taskThrow Gen.taskThrow
+    Kernel.taskThrow s t cd = ghostThrow s t (Gen.Intr.taskThrow s t (.intr s.nexc cd)) := by
+  unfold Kernel.taskThrow Gen.Intr.taskThrow
   simp only [isBaseException, haveContext, stepMethod, hpy, blockedOn, fwCancelled, futDone, futCancelled,
     queueFindRemove, current_beq]
   by_cases hc : s.ctx = .inTask t <;>
@@ -45,32 +45,32 @@ def ofReinsert : Except (ThrowErr × State) State → State × Out
   | .ok s' => (s', .ok)
   | .error (_, s') => (s', .valueError)
 
-/-- `Gen.taskReinsert` (scheduling._task_reinsert) = the Kernel's `reinsert` event, in every state. -/
+/-- `Gen.Intr.taskReinsert` (scheduling._task_reinsert) = the Kernel's `reinsert` event, in every state. -/
 theorem taskReinsert_eq (s : State) (t : TaskId) (pos : Nat) :
-    Kernel.reinsert s t pos = ofReinsert (Gen.taskReinsert s t pos) := by
-  unfold Kernel.reinsert Gen.taskReinsert
+    Kernel.reinsert s t pos = ofReinsert (Gen.Intr.taskReinsert s t pos) := by
+  unfold Kernel.reinsert Gen.Intr.taskReinsert
   simp only [queueFindRemove]
   cases hp : popLast (isOf t) s.ready <;> simp [ofReinsert, queueInsertPos]
 
 /-- `task_switch(task)` (no `insert_pos`) suspends with a bare `sleep(0)` right after the reinsert. -/
 theorem taskSwitchPrefix_eq (s : State) (t : TaskId) :
-    Gen.taskSwitchPrefix s t none = (Gen.taskReinsert s t 0).map (fun s' => (s', Susp.sleep0)) := by
-  unfold Gen.taskSwitchPrefix
-  cases Gen.taskReinsert s t 0 <;> rfl
+    Gen.Intr.taskSwitchPrefix s t none = (Gen.Intr.taskReinsert s t 0).map (fun s' => (s', Susp.sleep0)) := by
+  unfold Gen.Intr.taskSwitchPrefix
+  cases Gen.Intr.taskReinsert s t 0 <;> rfl
 
 /-- task_throw never raises ValueError -/
 theorem taskThrow_not_valueError (s : State) (t : TaskId) (e : Exc) :
-    ∀ s', Gen.taskThrow s t e ≠ .error (.valueError, s') := by
-  unfold Gen.taskThrow
+    ∀ s', Gen.Intr.taskThrow s t e ≠ .error (.valueError, s') := by
+  unfold Gen.Intr.taskThrow
   dsimp only
   repeat' split
   all_goals simp
 
 /-- after an accepted task_throw the last ready handle is the target's `step(exception)` -/
-theorem taskThrow_ok_ready (s s1 : State) (t : TaskId) (e : Exc) (h : Gen.taskThrow s t e = .ok s1) :
+theorem taskThrow_ok_ready (s s1 : State) (t : TaskId) (e : Exc) (h : Gen.Intr.taskThrow s t e = .ok s1) :
     ∃ r, s1.ready = r ++ [Handle.step t (some e)] := by
   revert h
-  unfold Gen.taskThrow stepMethod
+  unfold Gen.Intr.taskThrow stepMethod
   dsimp only
   repeat' split
   all_goals (intro h; first | (cases h; done) | skip)
@@ -79,9 +79,9 @@ theorem taskThrow_ok_ready (s s1 : State) (t : TaskId) (e : Exc) (h : Gen.taskTh
 
 /-- `_task_reinsert` only ever raises ValueError -/
 theorem taskReinsert_err (s s' : State) (t : TaskId) (pos : Nat) (e : ThrowErr)
-    (h : Gen.taskReinsert s t pos = .error (e, s')) : e = .valueError ∧ s' = s := by
+    (h : Gen.Intr.taskReinsert s t pos = .error (e, s')) : e = .valueError ∧ s' = s := by
   revert h
-  unfold Gen.taskReinsert queueFindRemove
+  unfold Gen.Intr.taskReinsert queueFindRemove
   dsimp only
   cases popLast (isOf t) s.ready <;> simp
   intro h1 h2; exact ⟨h1.symm, h2.symm⟩
@@ -92,16 +92,16 @@ def kernelInterruptPrefix (s : State) (t : TaskId) (cd : Bool) : State × Out :=
   if (Kernel.taskThrow s t cd).2 = .ok then Kernel.reinsert (Kernel.taskThrow s t cd).1 t 0
   else Kernel.taskThrow s t cd
 
-/-- `Gen.taskInterruptPrefix` (interrupt.task_interrupt up to the first suspension) is that event
+/-- `Gen.Intr.taskInterruptPrefix` (interrupt.task_interrupt up to the first suspension) is that event
     sequence: same refusals, same state, and the suspension is the bare `sleep(0)`. -/
 theorem taskInterruptPrefix_eq (s : State) (t : TaskId) (cd : Bool) (hpy : (s.tasks t).py = true) :
-    match Gen.taskInterruptPrefix s t (.intr s.nexc cd) with
+    match Gen.Intr.taskInterruptPrefix s t (.intr s.nexc cd) with
     | .ok (s2, susp) =>
       susp = Susp.sleep0 ∧ kernelInterruptPrefix s t cd = ((ghostThrow s t (.ok s2)).1, .ok)
     | .error e => e.1 ≠ .valueError ∧ kernelInterruptPrefix s t cd = ghostThrow s t (.error e) := by
-  unfold Gen.taskInterruptPrefix kernelInterruptPrefix
+  unfold Gen.Intr.taskInterruptPrefix kernelInterruptPrefix
   rw [taskThrow_eq s t cd hpy]
-  cases hthrow : Gen.taskThrow s t (.intr s.nexc cd) with
+  cases hthrow : Gen.Intr.taskThrow s t (.intr s.nexc cd) with
   | error e =>
     obtain ⟨e, se⟩ := e
     have hne : e ≠ .valueError := by
@@ -118,7 +118,7 @@ theorem taskInterruptPrefix_eq (s : State) (t : TaskId) (cd : Bool) (hpy : (s.ta
       simp [isOf, taskFromHandle] at this
     simp only [ghostThrow, taskSwitchPrefix_eq]
     rw [taskReinsert_eq]
-    unfold Gen.taskReinsert
+    unfold Gen.Intr.taskReinsert
     simp only [queueFindRemove]
     -- the ghost fields (nexc, thrown) do not interact with the reinsert
     cases hp : popLast (isOf t) s1.ready with
